@@ -9,6 +9,7 @@ import (
 	"sort"
 	"strconv"
 	"strings"
+	"unicode/utf8"
 
 	"golang.org/x/tools/go/packages"
 	"golang.org/x/tools/go/ssa"
@@ -434,6 +435,11 @@ func checkCaptures(c *core.Ctx, r *core.Rule, pkg *packages.Package, key string,
 					default:
 						r.Fail("param-tail-delimiter-captures-slash", c.Pos(as.Pos()), fmt.Sprintf("%s: args[%s] = %s is bounded only by %q, not by '/': a request segment boundary inside the value is captured into the argument (e.g. {foo}=\"a/b\")", key, k, rhs, chars))
 					}
+					// strings.IndexAny works on runes: a tail set that is not valid UTF-8 (the first byte of a
+					// multi-byte character next to another tail) is read as U+FFFD and never matches
+					if found && len(chars) > 1 && !utf8.ValidString(chars) {
+						r.Fail("param-tail-indexany-invalid-utf8", c.Pos(as.Pos()), fmt.Sprintf("%s: args[%s] is ended by strings.IndexAny(elem, %q): the set is not valid UTF-8, IndexAny reads the stray byte as U+FFFD and never finds it, so the template whose static text starts with that character after the parameter is unreachable (404)", key, k, chars))
+					}
 					// the bytes that end the parameter are exactly the first bytes of the static children matched next
 					if found {
 						var sw *ast.SwitchStmt
@@ -455,8 +461,8 @@ func checkCaptures(c *core.Ctx, r *core.Rule, pkg *packages.Package, key string,
 						}
 						tails := map[rune]bool{}
 						if rhs == "elem[:idx]" {
-							for _, ch := range chars {
-								tails[ch] = true
+							for i := 0; i < len(chars); i++ {
+								tails[rune(chars[i])] = true // bytes: the switch below is over elem[0]
 							}
 						}
 						var missing, extra []string
